@@ -231,15 +231,23 @@ static void run_case(toks & tk, const std::string & certdir)
                 {
                     rec_sink sink; sink.fail_at = fail_at;
                     rec_callback cb; cb.answers = cb_answers;
-                    replies rs = cl.download_file(sink, a1, has_cb ? &cb : nullptr);
+                    // every public overload is exercised: the one taking the stream by reference and, on every other call,
+                    // the one taking a temporary
+                    replies rs = (ci % 2 == 0) ? cl.download_file(sink, a1, has_cb ? &cb : nullptr)
+                                               : cl.download_file(std::move(sink), a1, has_cb ? &cb : nullptr);
                     out = "ret:replies:" + show_replies(rs);
                 }
                 else if (k == "U")
                 {
                     chunk_source src; src.chunks = chunks;
                     rec_callback cb; cb.answers = cb_answers;
-                    replies rs = upv == "A" ? cl.append_file(src, a1, has_cb ? &cb : nullptr)
-                                            : cl.upload_file(src, a1, upv == "U", has_cb ? &cb : nullptr);
+                    replies rs;
+                    if (ci % 2 == 0)
+                        rs = upv == "A" ? cl.append_file(src, a1, has_cb ? &cb : nullptr)
+                                        : cl.upload_file(src, a1, upv == "U", has_cb ? &cb : nullptr);
+                    else
+                        rs = upv == "A" ? cl.append_file(std::move(src), a1, has_cb ? &cb : nullptr)
+                                        : cl.upload_file(std::move(src), a1, upv == "U", has_cb ? &cb : nullptr);
                     out = "ret:replies:" + show_replies(rs);
                 }
                 else if (k == "F")
